@@ -28,6 +28,9 @@ mut("c19_zi_revalidate_only_newer", "C19", "freshness", [(ZI,
  "        if old_last_modified != new_last_modified {", "        if old_last_modified < new_last_modified {")])
 mut("c19_zi_reset_keeps_zones", "C19", "freshness", [(ZI,
  "            names.reset();\n        }\n        zones.reset();", "            names.reset();\n        }\n        let _ = &mut zones;")])
+mut("c19_zi_reset_expires_only", "C19", "freshness", [(ZI,
+ "    fn reset(&mut self) {\n        self.zones.clear();\n    }\n}\n\n#[derive(Clone, Debug)]\nstruct CachedTimeZone {",
+ "    fn reset(&mut self) {\n        for zone in self.zones.iter_mut() {\n            zone.expiration = Expiration::expired();\n        }\n    }\n}\n\n#[derive(Clone, Debug)]\nstruct CachedTimeZone {")])
 mut("c19_zi_reset_keeps_names", "C19", "false_negative|completeness", [(ZI,
  "        if let Some(ref names) = self.names {\n            names.reset();\n        }\n        zones.reset();",
  "        zones.reset();")])
